@@ -149,6 +149,14 @@ def valid_templates(tier="quick"):
     T.append(_mk("consumer_declares_the_supplied_output", [Variant("v0", st, defaults=["all"])], {"dd.in": dd3f}, ops, [nb + 2, nb],
                  min(depth, 5), ["produced", "implicit-output"]))
 
+    # D2c: the dyndep file names as an implicit input a file the statement already lists after `||` (a generated one and a
+    # checked-in one): the dyndep information makes them real dependencies
+    dd2c = dyndep_text([("out", [], ["hdr", "gen"], False)])
+    st = [Stmt("dd", ex=["dd.in"], copy=True), Stmt("gen", ex=["g.in"]),
+          Stmt("out", ex=["in"], oo=["dd", "hdr", "gen"], dyndep="dd", extra_reads=["hdr", "gen"]), Stmt("top", ex=["out"])]
+    ops, nb = common_ops([{"op": "edit", "path": "hdr", "label": "edit hdr"}, {"op": "edit", "path": "g.in", "label": "edit g.in"}])
+    T.append(_mk("supplied_input_also_order_only", [Variant("v0", st)], {"dd.in": dd2c}, ops, [nb], min(depth, 5), ["produced"]))
+
     # D3d: the statement also writes a plain depfile, and -- as compilers that produce module files do -- names all its outputs
     # in it, the dyndep-supplied one included
     dd3d = dyndep_text([("out", ["out.mod"], [], False)])
